@@ -27,7 +27,8 @@ type Op struct {
 	SepCards int      `json:"sepCards,omitempty"`
 	SepCols  int      `json:"sepCols,omitempty"`
 	Geom     [][2]int `json:"geom,omitempty"` // (ncols, nrows) per requested card
-	Pk       [][2]int `json:"pk,omitempty"`   // (nchan, first channel) announced by sampled packets
+	Pk       [][2]int `json:"pk,omitempty"`   // (nchan, first channel) announced by sampled packets, in arrival order
+	One      bool     `json:"one,omitempty"`  // all packets from one producer (arrival order = list order)
 	Devs     []int    `json:"devs,omitempty"`
 	N        int      `json:"n,omitempty"`
 	RC       []int    `json:"rc,omitempty"` // row col rows cols
@@ -159,6 +160,31 @@ func genLRun(r *lib.Rng, avail []int, small bool, malformed bool) Op {
 	default:
 		o.SepCards = maxneed + r.Range(1, 40)
 	}
+	if !malformed && len(o.Req) >= 2 && r.Chance(1, 6) {
+		// cards in descending device order; the separation fits every card except the last active one,
+		// which therefore runs into the block of the card listed before it
+		sort.Sort(sort.Reverse(sort.IntSlice(o.Req)))
+		need := func(g [2]int) int {
+			if o.SepCols > 0 {
+				return o.SepCols * g[0]
+			}
+			return g[1] * g[0]
+		}
+		m := 1
+		for _, g := range o.Geom[:len(o.Geom)-1] {
+			if need(g) > m {
+				m = need(g)
+			}
+		}
+		o.SepCards = m + r.Range(0, 2)
+		last := &o.Geom[len(o.Geom)-1]
+		for need(*last) <= o.SepCards {
+			last[0]++
+		}
+		if r.Bool() {
+			last[0] += r.Range(0, 3)
+		}
+	}
 	if malformed {
 		switch r.Intn(5) {
 		case 0:
@@ -183,7 +209,33 @@ func genLRun(r *lib.Rng, avail []int, small bool, malformed bool) Op {
 	return o
 }
 
+// genAbacoNest: one group inside another (strictly, or sharing one end), optionally with unrelated groups
+// around them, in a random arrival order, mostly from a single producer so that the order is the list order.
+func genAbacoNest(r *lib.Rng) Op {
+	o := Op{Op: "aprep", One: r.Chance(3, 4)}
+	a, k := r.Range(0, 30), r.Range(1, 8)
+	x, y := r.Range(0, 4), r.Range(0, 4)
+	if x > a {
+		x = a
+	}
+	if x == 0 && y == 0 {
+		y = 1
+	}
+	o.Pk = append(o.Pk, [2]int{k, a}, [2]int{k + x + y, a - x})
+	for i, extra := 0, r.Intn(3); i < extra; i++ {
+		o.Pk = append(o.Pk, [2]int{r.Range(1, 6), a + k + y + 5 + 10*i + r.Range(0, 3)})
+	}
+	for i := len(o.Pk) - 1; i > 0; i-- {
+		j := r.Intn(i + 1)
+		o.Pk[i], o.Pk[j] = o.Pk[j], o.Pk[i]
+	}
+	return o
+}
+
 func genAbaco(r *lib.Rng) Op {
+	if r.Chance(1, 4) {
+		return genAbacoNest(r)
+	}
 	o := Op{Op: "aprep"}
 	ng := r.Range(1, 5)
 	next := r.Range(0, 20)
@@ -193,7 +245,55 @@ func genAbaco(r *lib.Rng) Op {
 			n = r.Range(13, 40)
 		}
 		first := next
-		switch r.Intn(8) {
+		switch r.Intn(14) {
+		case 8: // strictly contains an earlier group (both ends beyond it)
+			if i > 0 {
+				e := o.Pk[r.Intn(len(o.Pk))]
+				lo := e[1] - r.Range(1, 4)
+				if lo < 0 {
+					lo = 0
+				}
+				first, n = lo, e[1]+e[0]+r.Range(1, 4)-lo
+			}
+		case 9: // contains an earlier group, sharing its first or its last channel
+			if i > 0 {
+				e := o.Pk[r.Intn(len(o.Pk))]
+				if r.Bool() || e[1] == 0 {
+					first, n = e[1], e[0]+r.Range(1, 4)
+				} else {
+					k := r.Range(1, 4)
+					if k > e[1] {
+						k = e[1]
+					}
+					first, n = e[1]-k, e[0]+k
+				}
+			}
+		case 10: // lies strictly inside an earlier group
+			if i > 0 {
+				e := o.Pk[r.Intn(len(o.Pk))]
+				if e[0] >= 3 {
+					first, n = e[1]+1, r.Range(1, e[0]-2)
+				}
+			}
+		case 11: // shares exactly one end channel with an earlier group
+			if i > 0 {
+				e := o.Pk[r.Intn(len(o.Pk))]
+				if r.Bool() || e[1] < n-1 {
+					first = e[1] + e[0] - 1 // starts on the other's last channel
+				} else {
+					first = e[1] - n + 1 // ends on the other's first channel
+				}
+			}
+		case 12: // identical to an earlier group
+			if i > 0 {
+				e := o.Pk[r.Intn(len(o.Pk))]
+				first, n = e[1], e[0]
+			}
+		case 13: // same first channel, other size
+			if i > 0 {
+				e := o.Pk[r.Intn(len(o.Pk))]
+				first = e[1]
+			}
 		case 0, 1, 2: // adjacent
 		case 3, 4: // gap
 			first = next + r.Range(1, 30)
@@ -219,7 +319,8 @@ func genAbaco(r *lib.Rng) Op {
 	if r.Chance(1, 3) { // a group announced twice
 		o.Pk = append(o.Pk, o.Pk[r.Intn(len(o.Pk))])
 	}
-	// shuffle: the order packets arrive in must not matter
+	o.One = r.Chance(1, 2)
+	// shuffle: the order packets arrive in must not matter (nested layouts are thereby tried in both orders)
 	for i := len(o.Pk) - 1; i > 0; i-- {
 		j := r.Intn(i + 1)
 		o.Pk[i], o.Pk[j] = o.Pk[j], o.Pk[i]
@@ -379,6 +480,30 @@ func corpus() []Case {
 			{Op: "aprep", Pk: g(3, 5, 4, 5)},
 			{Op: "files", Base: "ab", Off: true}}},
 		{Avail: all, Ops: []Op{{Op: "aprep", Pk: g(8, 16, 8, 0, 8, 8)}, {Op: "files", Base: "ab", Off: true}}},
+		// nested groups in both arrival orders (small group first, then one that strictly contains it; and reversed),
+		// containing groups sharing one end, identical groups, groups sharing exactly one end channel
+		{Avail: all, Ops: []Op{
+			{Op: "aprep", One: true, Pk: g(4, 4, 16, 0)},
+			{Op: "aprep", One: true, Pk: g(16, 0, 4, 4)},
+			{Op: "aprep", One: true, Pk: g(2, 4, 10, 0, 3, 20)},
+			{Op: "aprep", One: true, Pk: g(3, 20, 2, 4, 3, 30, 10, 0)},
+			{Op: "aprep", One: true, Pk: g(4, 4, 8, 4)},
+			{Op: "aprep", One: true, Pk: g(4, 4, 8, 0)},
+			{Op: "aprep", One: true, Pk: g(8, 0, 4, 4)},
+			{Op: "aprep", One: true, Pk: g(4, 4, 4, 4)},
+			{Op: "aprep", One: true, Pk: g(4, 4, 4, 7)},
+			{Op: "aprep", One: true, Pk: g(4, 7, 4, 4)},
+			{Op: "aprep", One: true, Pk: g(1, 5, 3, 4)},
+			{Op: "aprep", One: true, Pk: g(1, 5, 1, 5, 1, 6)}}},
+		{Avail: all, Ops: []Op{{Op: "aprep", One: true, Pk: g(4, 4, 16, 0)}, {Op: "files", Base: "ab", Off: true}}},
+		// card separation large enough for every card but the LAST active one, cards in descending device order:
+		// card 0 needs 16 numbers, gets 10, and runs into card 1's block
+		{Avail: all, Ops: []Op{
+			{Op: "lrun", Req: []int{1, 0}, Nsamp: 1, First: 1, SepCards: 10, Geom: g(1, 4, 2, 8)},
+			{Op: "lrun", Req: []int{1, 0}, Nsamp: 1, First: 1, SepCards: 10, Geom: g(2, 8, 1, 4)},
+			{Op: "lrun", Req: []int{2, 1, 0}, Nsamp: 1, First: 0, SepCards: 12, SepCols: 6, Geom: g(2, 5, 2, 6, 3, 4)},
+			{Op: "lrun", Req: []int{5, 3}, Nsamp: 1, First: 1, SepCards: 4, Geom: g(1, 4, 3, 4)},
+			{Op: "lrun", Req: []int{0}, Nsamp: 1, First: 1, SepCards: 4, Geom: g(2, 4)}}},
 		{Avail: all, Ops: []Op{{Op: "rprep", Devs: []int{3, 2}}, {Op: "files", Base: "ro", Off: true}}},
 		{Avail: all, Ops: []Op{{Op: "tprep", N: 3}, {Op: "files", Base: "tr", Off: true}, {Op: "files", Base: "tr"}}},
 		{Avail: all, Ops: []Op{{Op: "sprep", N: 4}, {Op: "files", Base: "sp"}, {Op: "tprep", N: 0}, {Op: "files", Base: "sp"}}},
@@ -630,7 +755,7 @@ func runCase(c Case) (res lib.Result) {
 				as := dastard.VerifC19NewAbaco()
 				// two producers when there are enough packets: arrival order across producers is up to the scheduler
 				batches := [][][2]int{o.Pk}
-				if len(o.Pk) >= 3 {
+				if len(o.Pk) >= 3 && !o.One {
 					batches = [][][2]int{o.Pk[:len(o.Pk)/2], o.Pk[len(o.Pk)/2:]}
 				}
 				if len(o.Pk) == 0 {
